@@ -247,6 +247,47 @@ pub fn run(ctx: &mut Ctx) {
             }
         }
     }
+    // composition: every operator nested in every operand position of every operator (benign and
+    // alternative operand vectors), compared with the single-pass reference
+    {
+        let alt = |k: &str, n: usize| -> Vec<Value> {
+            // a second operand vector per operator: falsy / empty / string-typed where the benign one is truthy / numeric
+            let pool = [json!(0), json!(""), json!([]), json!("3"), json!(null), json!([2, 1])];
+            let mut v = benign(k, n);
+            for (i, x) in v.iter_mut().enumerate() {
+                if x.is_number() || x.is_string() {
+                    *x = pool[(i + k.len()) % pool.len()].clone();
+                }
+            }
+            v
+        };
+        let dd = json!({"a": "A", "s": "SECRET", "one": 1, "xs": [1, 2, 3], "m_var": {"var": "s"}});
+        for outer in OPS {
+            if !ctx.mine() {
+                continue;
+            }
+            for n in 1..=3usize {
+                if !refmodel::arity_ok(outer, n) {
+                    continue;
+                }
+                for p in 0..n {
+                    for inner in OPS {
+                        for m in 0..=3usize {
+                            if !refmodel::arity_ok(inner, m) || (m == 0 && !["+", "cat", "merge", "missing", "if", "?:", "var"].contains(&inner)) {
+                                continue;
+                            }
+                            for (ov, iv) in [(benign(outer, n), benign(inner, m)), (alt(outer, n), benign(inner, m)), (benign(outer, n), alt(inner, m))] {
+                                ctx.edge();
+                                let mut args = ov;
+                                args[p] = op(inner, iv);
+                                ctx.check("composition", &op(outer, args), &dd);
+                            }
+                        }
+                    }
+                }
+            }
+        }
+    }
     // tracer rules
     for k in OPS {
         for n in 0..=4usize {
